@@ -225,6 +225,14 @@ def run(rep, tier):
     appends = [y for y in gdl.walk() if y.get('callee', {}).get('q', '').split('::')[-1] == 'append' and 'LuaRef' in y.get('callee', {}).get('q', '')]
     rep.check(not appends, 'R16.14', 'getDataAsLua|array elements', locstr(appends[0]) if appends else gdl.where(), 'array elements are %s' % (
         'stored under their index' if not appends else 'APPENDED (LuaRef::append): {\'a\', nil, \'c\'} arrives as {\'a\', \'c\'}, JSON [1,null,3] as {1,3}; a sparse table {[1]=.., [5000000]=..} is expanded element by element on the way out (3.4 GB)'))
+    # and the way out: a table is an array only if it is a sequence 1..n
+    gld14 = next((f_ for f_ in fb.funcs.values() if f_.q.endswith('getLuaAsData')), None)
+    if gld14 is None:
+        raise AnalysisBroken('getLuaAsData not found')
+    seq_test = [x for x in gld14.walk() if x['k'] in ('BinaryOperator', 'CXXOperatorCallExpr') and x.get('op') in ('!=', '==', '<', '>') and any(
+        y.get('callee', {}).get('q', '').split('::')[-1] == 'size' for y in sub(x)) and any(y.get('callee', {}).get('q', '').split('::')[-1] in ('rbegin', 'back', 'crbegin') or y.get('ref', {}).get('name') in ('maxIndex', 'largestIndex', 'lastKey') for y in sub(x))]
+    rep.check(bool(seq_test), 'R16.14', 'getLuaAsData|array means sequence', locstr(seq_test[0]) if seq_test else gld14.where(), 'a table with positive integer keys %s' % (
+        'is an array only if its largest key equals the number of entries' if seq_test else 'is always an array: one filler element is pushed per missing index ({[1]=.., [5000000]=..} -> 3.4 GB), holes are filled with nil atoms that the way back drops'))
     rep.rule('R16.15', 'a number keeps its value: getLuaAsData writes a Lua number with enough digits to read the same double back (17 significant digits) and spells non-finite values so that Lua reads them')
     gld = next((f_ for f_ in fb.funcs.values() if f_.q.endswith('getLuaAsData')), None)
     if gld is None:
@@ -304,6 +312,9 @@ def run(rep, tier):
         if n['k'] == 'CXXOperatorCallExpr' and n.get('op') == '[]' and 'LuaRef' in n.get('callee', {}).get('q', '') and len(n.get('c', [])) > 2:
             it = (strip(n['c'][2]) or {}).get('t', '')
             if it.replace('const ', '').strip() not in ('long', 'int', 'unsigned long', 'unsigned int', 'size_t', 'long long', 'uint32_t', 'int32_t', 'int64_t'):
+                continue
+            # the index is a key turned into a number (a conversion call or the key itself), not the running position of an array element
+            if not any(y['k'] in ('CallExpr', 'CXXMemberCallExpr') or (y['k'] == 'MemberExpr' and y.get('ref', {}).get('name') == 'first') for y in sub(n['c'][2])):
                 continue
             nidx += 1
             guarded = False
